@@ -93,6 +93,29 @@ pub open spec fn next_frame_post<F>(key: usize, m: Map<usize, usize>, buf: Seq<F
         && (self.buffer.view().len() > 0 ==> exists|k: usize| self.frames_read.view().dom().contains(k) && #[trigger] self.frames_read.view()[k] == 0)
     }
 
+//@endimpl
+
+// Bus::send: R-refcell (the `self.node.borrow_mut()` line is removed, `node` is a parameter) and the returned
+// `Output { key, node: self.node.clone() }` is reduced to its key (the Rc handle is plumbing)
+//@fn file=dasp_signal/src/bus.rs in="impl:<S> Bus<S>" name=send label=Bus::send "sig=fn bus_send<S: Signal>(node: &mut SharedNode<S>) -> (r: usize)" "rules=R-subst:let mut node = self.node.borrow_mut();=>,R-subst:Output { key: key, node: self.node.clone(), }=>key"
+//@spec
+        requires old(node).wf(), !old(node).frames_read.view().dom().contains(old(node).next_key),
+        ensures final(node).wf(), final(node).signal == old(node).signal, final(node).buffer == old(node).buffer,
+            r == old(node).next_key,
+            // a new output has, by definition, read the whole current backlog: it starts with the first frame nobody has pulled yet
+            final(node).frames_read.view() == old(node).frames_read.view().insert(r, old(node).buffer.view().len() as usize),
+//@tail
+        proof {
+            let m0 = old(node).frames_read.view(); let m2 = node.frames_read.view();
+            if node.buffer.view().len() > 0 {
+                let z = choose|k: usize| m0.dom().contains(k) && #[trigger] m0[k] == 0;
+                assert(z != tail_);
+                assert(m2.dom().contains(z) && m2[z] == 0);
+            }
+        }
+//@end
+
+//@impl file=dasp_signal/src/bus.rs header="impl<S> SharedNode<S>" as="impl<S> SharedNode<S>"
 //@fn file=dasp_signal/src/bus.rs in="impl:<S> SharedNode<S>" name=next_frame ret=r label=SharedNode::next_frame "rules=R-subst:self.buffer[frames_read]=>self.buffer.at_(frames_read),R-subst:.values() .any(|&other_frames_read| other_frames_read <= frames_read)=>.any_value_le_(frames_read),R-subst:for other_frames_read in self.frames_read.values_mut() { *other_frames_read -= 1; }=>self.frames_read.sub_from_all_(1);"
 //@spec
         requires old(self).wf(), old(self).frames_read.view().dom().contains(key),
